@@ -9,6 +9,7 @@ Fixpoint erase (c : ctree) : tree :=
   match c with
   | CLeaf nm p => Leaf nm (8 + lenN p)
   | CNode nm kids => Node nm (map erase kids)
+  | CLarge nm p => Leaf nm (16 + lenN p)
   end.
 
 (* a leaf decoder pair accepts the canonical leaf (nm, payload) wherever it sits in a buffer:
@@ -24,6 +25,19 @@ Definition canon_leaf (ld : leafdec) (nm p : list N) : Prop :=
         ld_r ld (mkH nm (8 + lenN p) 8) (mkI (pre ++ p ++ post) (lenN pre) cst)
         = (Ok (8 + lenN p), mkI (pre ++ p ++ post) (lenN pre + lenN p) cst')).
 
+(* the same contract for a leaf behind a 16-byte largesize header: Hdrlen = 16, Size = 16 + len payload, and the decoded
+   box reports Size() = 16 + len payload (for mdat: LargeSize carried over from hdr.Hdrlen > 8 on BOTH paths) *)
+Definition canon_large (ld : leafdec) (nm p : list N) : Prop :=
+  ld_kind ld nm = KLeaf /\
+  (forall pre post cst, (zlen (pre ++ p ++ post) < two63)%Z ->
+      exists cst',
+        ld_sr ld (mkH nm (16 + lenN p) 16) (mkS (mkR (pre ++ p ++ post) (zlen pre) false) cst)
+        = (Ok (16 + lenN p), mkS (mkR (pre ++ p ++ post) (zlen pre + zlen p)%Z false) cst')) /\
+  (forall pre post cst, (zlen (pre ++ p ++ post) < two63)%Z ->
+      exists cst',
+        ld_r ld (mkH nm (16 + lenN p) 16) (mkI (pre ++ p ++ post) (lenN pre) cst)
+        = (Ok (16 + lenN p), mkI (pre ++ p ++ post) (lenN pre + lenN p) cst')).
+
 Definition is_cont (k : kind) : bool := match k with KLeaf => false | _ => true end.
 
 Fixpoint cwf (ld : leafdec) (c : ctree) : Prop :=
@@ -32,4 +46,5 @@ Fixpoint cwf (ld : leafdec) (c : ctree) : Prop :=
   | CNode nm kids =>
       length nm = 4%nat /\ is_cont (ld_kind ld nm) = true /\
       (fix all (l : list ctree) : Prop := match l with [] => True | k :: r => cwf ld k /\ all r end) kids
+  | CLarge nm p => length nm = 4%nat /\ canon_large ld nm p
   end.
